@@ -166,9 +166,15 @@ class Layouts:
             op = e[1].replace("Unchecked", "")
             wo = op.endswith("WithOverflow")
             op = op.replace("WithOverflow", "")
-            r = {"Add": a + b, "Sub": a - b, "Mul": a * b}.get(op)
-            if r is None:
+            try:
+                r = {"Add": lambda: a + b, "Sub": lambda: a - b, "Mul": lambda: a * b, "Rem": lambda: a % b, "Div": lambda: a // b, "BitAnd": lambda: a & b,
+                     "BitOr": lambda: a | b, "BitXor": lambda: a ^ b, "Shl": lambda: a << b, "Shr": lambda: a >> b}[op]()
+            except KeyError:
                 raise Unknown("operator " + op)
+            except ZeroDivisionError:
+                raise Panic()
+            if not wo and (r < 0 or r >= (1 << 64)) and op in ("Add", "Sub", "Mul"):
+                r &= (1 << 64) - 1  # release-mode wrapping (debug builds would panic)
             if wo:
                 return ("T", r & ((1 << 64) - 1), int(r < 0 or r >= (1 << 64)))
             return r
@@ -221,6 +227,27 @@ class Layouts:
             if path in ("core::mem::size_of", "core::mem::align_of"):
                 s, al = self.type_layout(gi[0], shapes, 0)
                 return s if path.endswith("size_of") else al
+            if path in ("core::mem::size_of_val", "core::mem::align_of_val", "core::mem::size_of_val_raw", "core::mem::align_of_val_raw"):
+                s, al = self.type_layout(gi[0], shapes, tail_len)
+                return s if "size_of" in path else al
+            if path in ("<usize>::max", "<usize>::min", "core::cmp::max", "core::cmp::min", "core::cmp::Ord::max", "core::cmp::Ord::min") and len(a) == 2:
+                x = self.eval(a[0], shapes, args, tail_len)
+                y = self.eval(a[1], shapes, args, tail_len)
+                return max(x, y) if name == "max" else min(x, y)
+            if name in ("wrapping_add", "wrapping_sub", "wrapping_mul", "saturating_sub", "saturating_add", "next_multiple_of") and len(a) == 2:
+                x = self.eval(a[0], shapes, args, tail_len)
+                y = self.eval(a[1], shapes, args, tail_len)
+                if name == "wrapping_add":
+                    return (x + y) & ((1 << 64) - 1)
+                if name == "wrapping_sub":
+                    return (x - y) & ((1 << 64) - 1)
+                if name == "wrapping_mul":
+                    return (x * y) & ((1 << 64) - 1)
+                if name == "saturating_sub":
+                    return max(x - y, 0)
+                if name == "saturating_add":
+                    return min(x + y, (1 << 64) - 1)
+                return round_up(x, y)
             if path in ("<core::result::Result<T, E>>::unwrap", "<core::result::Result<T, E>>::expect", "<core::option::Option<T>>::unwrap", "<core::option::Option<T>>::expect"):
                 v = self.eval(a[0], shapes, args, tail_len)
                 if v == ("ERR",):
